@@ -69,13 +69,12 @@ def parseUnicodeDigits : Nat → Nat → List Char → Option (Char × List Char
 def unquoteStep : List Char → Option (Char × List Char)
   | [] => none
   | c :: rest =>
-    if c.val = 0xFFFD then none                       -- `nextRune` treats U+FFFD as a decoding error
-    else if c ≠ '\\' then some (c, rest)
+    -- (a validly encoded U+FFFD is an ordinary character: `nextRune` only rejects `utf8.RuneError` of width ≤ 1)
+    if c ≠ '\\' then some (c, rest)
     else match rest with
       | [] => none
       | e :: r =>
-        if e.val = 0xFFFD then none
-        else if e = 'n' then some ('\n', r)
+        if e = 'n' then some ('\n', r)
         else if e = 'r' then some ('\r', r)
         else if e = 't' then some ('\t', r)
         else if e = '\\' then some ('\\', r)
